@@ -106,6 +106,20 @@ type limNode2 struct {
 	V int       `json:"v"`
 	W int       `json:"w"`
 }
+
+// a non-empty interface type and a non-pointer value that implements it (a destination holding one cannot be decoded into:
+// encoding/json and sonic report a type mismatch and skip the value)
+type limNamed interface{ LimM() }
+type limByValue struct{ N int }
+
+func (limByValue) LimM() {}
+
+type limNode3 struct {
+	V   int       `json:"v"`
+	Dyn limNamed  `json:"dyn"`
+	N   *limNode2 `json:"n"`
+	W   int       `json:"w"`
+}
 type limTree struct {
 	C []limTree `json:"c"`
 	V int       `json:"v"`
@@ -217,6 +231,18 @@ func limRun(c *limCase) (outcome, detail string, err error, inLen int) {
 				d = d[:len(d)-1]
 			}
 			var v limNode2
+			inLen = len(d)
+			err = sonic.UnmarshalString(d, &v)
+		case "objdyn":
+			n := c.Depth - 1
+			if n < 0 {
+				n = 0
+			}
+			d = `{"v":"not a number","dyn":{"N":1},"n":` + strings.Repeat(`{"n":`, n) + `{"v":1,"w":2}`
+			if c.Closed {
+				d += strings.Repeat("}", n) + `,"w":2}`
+			}
+			v := limNode3{Dyn: limByValue{}}
 			inLen = len(d)
 			err = sonic.UnmarshalString(d, &v)
 		case "tree":
